@@ -59,14 +59,6 @@ Qed.
 
 (* ---------- the charset is closed under ASCII case folding ---------- *)
 
-Definition bytes256 : list N := map N.of_nat (seq 0 256).
-
-Lemma in_bytes256 c : c < 256 -> In c bytes256.
-Proof.
-  intros H. unfold bytes256. apply in_map_iff. exists (N.to_nat c). split; [lia|].
-  apply in_seq. lia.
-Qed.
-
 Lemma charset_fold_closed_bytes :
   forallb (fun c => forallb (fun d =>
      implb ((to_lower c =? to_lower d) && tag_charset d) (tag_charset c)) bytes256) bytes256 = true.
